@@ -13,9 +13,16 @@ Tie (DESIGN.md 3/C19):
               incl. the twins of `listedFailureExc` / `trigRequestExcUntyped`); oracle-only: the REAL transport on URLs it
               refuses or cannot reach and against a one-shot loopback endpoint that misbehaves (closes, garbage, truncated
               body, undecodable Content-Encoding = finding C19-F6);
-  * settings: the real `main.client` (stopped by a sentinel at the first request / at the first file read) over random
-              source configurations with `$ENV` headers vs `Ariadne.Introspect.chooseSource` (op `source`); the captured
-              request (URL, headers, `verify`, the introspection query text) is compared too;
+  * text:     graphql-core's `Lexer` (tokens as the parser sees them: kind + lexeme; GraphQLSyntaxError / IndexError) on
+              templates, rendered SDL, fragment / alphabet compositions and mutated SDL vs `Ariadne.Spec.GqlLexer` (op `lex`),
+              and the token stream of `sep.join(texts)` for the separator measured on the real
+              `load_graphql_files_from_path` and eight others (the law `joined_text_tokens` states, on the real lexer);
+  * settings: the real `main.client` and `main.graphql_schema` (stopped by a sentinel at the first request / at the first
+              file read; some configurations twice in one process) over random source configurations with `$ENV` headers -
+              including environment values that themselves start with `$` - vs `Ariadne.Introspect.chooseSourceStaged`
+              (op `source`); the captured request (URL, headers, `verify`, the introspection query text) is compared too;
+              `get_graphql_schema_from_url` / `introspect_remote_schema` called directly with arbitrary header dicts vs
+              `Ariadne.Introspect.urlCall` (op `urlcall`: what they are given is what is sent);
   * inputs:   the real `InputTypesGenerator` / `EnumsGenerator` on the SDL-built and on the introspection-built schema
               object of random schemas with defaults of every kind vs `Ariadne.InputGen` (op `inputs`), including the
               trigger predicates.
@@ -399,6 +406,133 @@ def check_trees(ctx: Ctx, st: Optional[LeanStatus], res: Result, n: int) -> None
 
 
 # --------------------------------------------------------------------------------------------
+# 1b. the text level: graphql-core's lexer (Spec/GqlLexer.lean) and the separator of the joined text
+# --------------------------------------------------------------------------------------------
+
+LEX_ALPHABET = list('"\\u{}09afADFdeE.-+#\n\r\t ,_:!$&()=@[]|xyz\'%/bn') + ["\ufeff", "é", "😀", "\x00", "\x7f"]
+LEX_FRAGMENTS = ['"""', '""', '"', '\\"""', '\\"', '\\\\', '\\u', '\\u{', '}', 'D83D', '\\uD83D\\uDE00', '\\uD83D', '\\uDE00', '\\u00e9', '\\u00E', '\\uD83D\\u00e9',
+                 '\\u{1F600}', '\\u{110000}', '\\u{}', '\\u{D800}', '\\u{000000041}', '\\u{00000041}', '0', '-', '1.5', '1e', 'e+', '-0', '0.0e-1', '12', '-7', '1.5e3', '3E+2', '0e0', '9.99', ' 42 ', '7 ', '...', '..', '.',
+                 '#c', '# "', '\n', '\r', '\r\n', 'name', '_x1', '01', '1a', '1.', '.5', '1e5x', ' ', ',', '\\n', '\\q', '\\', 'type', '{', 'x: Int = 5', '\ufeff', "'", '?', 'é']
+
+
+def real_lex(text: str) -> Dict[str, Any]:
+    """graphql-core's Lexer on one text: the tokens the parser sees (kind class, `body[start:end]`), or the exception class"""
+    from graphql import GraphQLSyntaxError, Source
+    from graphql.language import Lexer, TokenKind
+
+    classes = {TokenKind.NAME: "Name", TokenKind.INT: "Int", TokenKind.FLOAT: "Float", TokenKind.STRING: "String", TokenKind.BLOCK_STRING: "BlockString"}
+    lexer = Lexer(Source(text))
+    toks: List[List[str]] = []
+    try:
+        while True:
+            t = lexer.advance()  # skips comments, as the parser does
+            if t.kind == TokenKind.EOF:
+                return {"o": "ok", "toks": toks}
+            toks.append([classes.get(t.kind, "punct"), text[t.start:t.end]])
+    except GraphQLSyntaxError:
+        return {"o": "syntax"}
+    except IndexError:
+        return {"o": "index"}
+
+
+def gen_lex_texts(ctx: Ctx, rng: random.Random, n: int) -> List[str]:
+    texts = [t.format(i=7) for t in DEF_TEMPLATES] + list(BAD_TEXTS) + LEX_FRAGMENTS
+    texts += ['"' + f + '"' for f in LEX_FRAGMENTS] + ['"""' + f + '"""' for f in LEX_FRAGMENTS] + ['"\\u' + h for h in ("", "0", "00", "000", "0000", "Z", "0Z", "00Z", "000Z", "Z0", "Z00", "Z000", "D83D", "D83D\\", "D83D\\u", "D83D\\uDE0", "D83D\\uDE00", "D83D\\uZ", "D83D\\u0041")]
+    texts += ['"\\u' + h + '"' for h in ("0041", "D83D\\uDE00", "DE00", "D83D", "D83Dx", "{41}", "{}", "{110000}", "{10FFFF}", "{D800}", "{00000041}", "{000000041}", "{4", "{G}")]
+    sdl_pool: List[str] = []
+    for _ in range(6):
+        schema = schema_gen.gen_schema(rng, size=rng.choice([1, 2]), subscription=False, custom_root_names=0.2)
+        decorate_schema(schema, rng, 0.5, 0.1, 0.8)
+        sdl_pool += render_defs(schema, True)
+    texts += sdl_pool
+    while len(texts) < n:
+        r = rng.random()
+        if r < 0.3:
+            texts.append("".join(rng.choice(LEX_ALPHABET) for _ in range(rng.randint(0, 14))))
+        elif r < 0.65:
+            texts.append("".join(rng.choice(LEX_FRAGMENTS) for _ in range(rng.randint(1, 5))))
+        else:
+            t = list(rng.choice(sdl_pool))
+            for _ in range(rng.choice([1, 1, 2, 3])):
+                i = rng.randrange(len(t) + 1)
+                op = rng.random()
+                if op < 0.4 and i < len(t):
+                    del t[i]
+                elif op < 0.8:
+                    t.insert(i, rng.choice(LEX_ALPHABET))
+                elif i < len(t):
+                    t[i] = rng.choice(LEX_ALPHABET)
+            texts.append("".join(t))
+    return texts
+
+
+def parser_witness() -> Dict[str, Any]:
+    """the limit of the token-level assumption `DefinitionWise`: two texts that parse on their own and whose join is ONE
+    definition (the second is an executable document, not a type-system one - no split of a schema contains it)"""
+    from graphql import parse
+
+    a, b = "type A", "{ x: Int }"
+    try:
+        return {"texts": [a, b], "definitions": [len(parse(a).definitions), len(parse(b).definitions)],
+                "joined_definitions": len(parse(a + "\n" + b).definitions)}
+    except Exception as e:  # noqa: BLE001
+        return {"texts": [a, b], "error": repr(e)}
+
+
+def measured_separator() -> Optional[str]:
+    """what the REAL load_graphql_files_from_path puts between two files (same measurement as harness/tables_c19.py)"""
+    from . import tables_c19
+
+    sep = tables_c19.collect()["schemaJoinSeparator"]
+    return None if sep == tables_c19.UNRECOGNISED else sep
+
+
+def check_lexer(ctx: Ctx, st: Optional[LeanStatus], res: Result, n: int) -> None:
+    """Spec/GqlLexer.lean vs graphql-core's Lexer, text by text; and the law the join theorem states, on the real lexer:
+    for texts that lex on their own, the tokens of `sep.join(texts)` are the tokens of the parts, in order"""
+    rng = ctx.sub_rng("lexer")
+    texts = gen_lex_texts(ctx, rng, n)
+    try:
+        obs = [real_lex(t) for t in texts]
+        sep = measured_separator()
+    except (AttributeError, ImportError, TypeError) as e:
+        res.mismatches.append(Mismatch("lex", {"stage": "observer"}, f"observer: {e!r}", None))
+        return
+    good = [t for t, o in zip(texts, obs) if o["o"] == "ok"]
+    joins: List[Dict[str, Any]] = []
+    for _ in range(max(50, n // 4)):
+        parts = [rng.choice(good) for _ in range(rng.choice([2, 2, 3, 4]))]
+        joins.append({"texts": parts, "sep": rng.choice(["\n", "\n", "\n", "", " ", "\r\n", "\n\n", ",", "\t"])})
+    if sep is not None:
+        joins += [{"texts": [rng.choice(good) for _ in range(rng.choice([2, 3]))], "sep": None} for _ in range(max(50, n // 4))]
+    lines = [{"op": "lex", "text": t} for t in texts]
+    lines += [{"op": "lex", "texts": j["texts"], **({"sep": j["sep"]} if j["sep"] is not None else {})} for j in joins]
+    model = common.run_driver(PROP, lines) if (st is not None and st.driver_ok) else None
+    for i, (t, o) in enumerate(zip(texts, obs)):
+        res.seen(["lex", t], nontrivial=len(t) > 1)
+        res.count("lex:" + o["o"])
+        for k, _ in (o.get("toks") or []):
+            res.count("lex:token:" + k)
+        if model is not None and not common.same_json(o, model[i]):
+            res.mismatches.append(Mismatch("lex", {"text": t}, o, model[i]))
+    if len(texts) and len(res.samples) < 12:
+        res.sample({"observation": "lex", "input": texts[0], "impl": obs[0], "model": model[0] if model else None})
+    for k, j in enumerate(joins):
+        used = j["sep"] if j["sep"] is not None else sep
+        o = real_lex(used.join(j["texts"]))
+        parts_toks = [tok for t in j["texts"] for tok in real_lex(t)["toks"]]
+        concat = o["o"] == "ok" and o["toks"] == parts_toks
+        res.seen(["lex-join", j], nontrivial=True)
+        res.count("lex-join:sep=" + json.dumps(used) + (":concat" if concat else ":differs"))
+        if model is not None and not common.same_json(o, model[len(texts) + k]):
+            res.mismatches.append(Mismatch("lex-join", j, o, model[len(texts) + k]))
+        if not concat and (used[:1] in ("\n", "\r") and all(c in " \t,\ufeff\n\r" for c in used)):
+            # the law the theorem `lex_join` states (a separator that starts with a line terminator and is made of ignored
+            # characters), violated by the real lexer: the lexer model is wrong, whatever the driver says
+            res.mismatches.append(Mismatch("lex-join-law", j, o, {"o": "ok", "toks": parts_toks}))
+
+
+# --------------------------------------------------------------------------------------------
 # 2. remote: the decision chain of introspect_remote_schema / get_graphql_schema_from_url
 # --------------------------------------------------------------------------------------------
 
@@ -661,11 +795,9 @@ def check_remote(ctx: Ctx, st: Optional[LeanStatus], res: Result) -> None:
         for status in STATUSES:
             cases.append({"label": label, "status": status, "content": content, "judged": judged})
     rng = ctx.sub_rng("remote")
-    from . import c12  # random JSON bodies of the same shape family (data/errors members)
-
     for _ in range(ctx.budget(300, 3000)):
         status = rng.choice(STATUSES) if rng.random() < 0.2 else rng.choice([200, 200, 201, 299])
-        content = c12.rand_body(rng)
+        content = rand_body(rng)
         if rng.random() < 0.3:
             try:
                 b = json.loads(content)
@@ -674,7 +806,7 @@ def check_remote(ctx: Ctx, st: Optional[LeanStatus], res: Result) -> None:
                     content = json.dumps(b).encode()
             except ValueError:
                 pass
-        ok, body = c12.decode_body(content)
+        ok, body = _decode(content)
         judged = not (ok and isinstance(body, dict) and "errors" in body and body["errors"] and not isinstance(body["errors"], list))
         cases.append({"label": "random", "status": status, "content": content, "judged": judged})
     lines = []
@@ -785,6 +917,58 @@ def gen_raised_cases(ctx: Ctx, rng: random.Random) -> List[Dict[str, Any]]:
         exc = make_exception(cls, msg)
         out.append({"label": label, "cls": cls, "family": family, "msg_arg": msg, "msg": str(exc), "mro": [qualname(c) for c in cls.__mro__]})
     return out
+
+
+def rand_json(rng: random.Random, depth: int = 0) -> Any:
+    r = rng.random()
+    if depth > 3 or r < 0.45:
+        return rng.choice([None, True, False, 0, 1, -3, 2.5, 0.0, "", "x", "data", "errors", 10**20])
+    if r < 0.7:
+        return [rand_json(rng, depth + 1) for _ in range(rng.randint(0, 3))]
+    return {rng.choice(["a", "b", "message", "path", "data", "errors", "locations", "extensions"]): rand_json(rng, depth + 1)
+            for _ in range(rng.randint(0, 3))}
+
+
+def rand_error(rng: random.Random, shaped: bool) -> Any:
+    if not shaped and rng.random() < 0.6:
+        return rng.choice([None, "x", 1, [], {}, {"msg": 1}, True])
+    e: Dict[str, Any] = {}
+    keys = ["message", "locations", "path", "extensions", "extra"]
+    rng.shuffle(keys)
+    for k in keys:
+        if k == "message" or rng.random() < 0.5:
+            e[k] = rand_json(rng, 2) if k != "message" or rng.random() < 0.3 else rng.choice(["m", "", "e2"])
+    return e
+
+
+def rand_body(rng: random.Random) -> bytes:
+    """random response bodies of the shape family the decision chain looks at (data / errors members); kept here so that
+    this check does not move when another property's generators do"""
+    r = rng.random()
+    if r < 0.08:
+        return rng.choice([b"", b"x", b"{", b"nul", b"[1,", b"\xc3\x28"])
+    if r < 0.2:
+        return json.dumps(rand_json(rng)).encode()
+    body: Dict[str, Any] = {}
+    members = ["data", "errors", "extensions", "other"]
+    rng.shuffle(members)
+    for m in members:
+        p = rng.random()
+        if m == "data" and p < 0.7:
+            body["data"] = rand_json(rng, 1)
+        elif m == "errors" and p < 0.7:
+            q = rng.random()
+            if q < 0.15:
+                body["errors"] = []
+            elif q < 0.8:
+                body["errors"] = [rand_error(rng, True) for _ in range(rng.randint(1, 4))]
+            elif q < 0.9:
+                body["errors"] = [rand_error(rng, False) for _ in range(rng.randint(1, 3))]
+            else:
+                body["errors"] = rand_json(rng, 2)
+        elif m in ("extensions", "other") and p < 0.3:
+            body[m] = rand_json(rng, 2)
+    return json.dumps(body).encode()
 
 
 def _decode(content: bytes) -> Tuple[bool, Any]:
@@ -914,14 +1098,27 @@ def check_real_transport(res: Result) -> None:
 # 3. settings: which source is used and what is sent
 # --------------------------------------------------------------------------------------------
 
-ENV_VALUES = {"VERIF_C19_TOKEN": "secret-1", "VERIF_C19_EMPTY": "", "VERIF_C19_B": "b val", "VERIF_C19_DOLLAR": "$x"}
+ENV_VALUES = {"VERIF_C19_TOKEN": "secret-1", "VERIF_C19_EMPTY": "", "VERIF_C19_B": "b val", "VERIF_C19_DOLLAR": "$x",
+              # values a SECOND get_header_value would not leave alone (Lean: startsWithDollar): a crypt-style secret,
+              # the name of another variable, a self-referential value (the one fixed point that starts with `$`)
+              "VERIF_C19_CRYPT": "$2y$10$N9qo8uLOickgx2ZMRZoMye", "VERIF_C19_CHAIN": "$VERIF_C19_TOKEN", "VERIF_C19_SELF": "$VERIF_C19_SELF"}
+# variables that must NOT exist while a case runs (names a second resolution of the values above would look up)
+ENV_ABSENT = ["VERIF_C19_UNSET", "x", "2y$10$N9qo8uLOickgx2ZMRZoMye"]
 HEADER_NAMES = ["Authorization", "X-Api-Key", "x-lower", "Accept-Language", "X-Trace"]
 HEADER_VALUES = ["Bearer abc", "plain", "", "tok$en", " $VERIF_C19_TOKEN", "Bearer $VERIF_C19_TOKEN", "$VERIF_C19_TOKEN", "$VERIF_C19_B",
-                 "$VERIF_C19_DOLLAR", "$VERIF_C19_EMPTY", "$VERIF_C19_UNSET", "$$VERIF_C19_TOKEN", "$", "$$", "$verif_c19_token"]
+                 "$VERIF_C19_DOLLAR", "$VERIF_C19_EMPTY", "$VERIF_C19_UNSET", "$$VERIF_C19_TOKEN", "$", "$$", "$verif_c19_token",
+                 "$VERIF_C19_CRYPT", "$VERIF_C19_CHAIN", "$VERIF_C19_SELF"]
+STRATEGIES = ["client", "graphqlschema"]
 
 
 class _Stop(Exception):
     pass
+
+
+def resolved_value_starts_with_dollar(c: Dict[str, Any]) -> bool:
+    """twin of the driver's `resolvedDollar` (Lean `startsWithDollar` on the resolved list): where one resolution and two differ"""
+    exp = expected_headers(c)
+    return exp is not None and any(v.startswith("$") for _, v in exp)
 
 
 def gen_source_case(rng: random.Random) -> Dict[str, Any]:
@@ -932,16 +1129,43 @@ def gen_source_case(rng: random.Random) -> Dict[str, Any]:
         url = url or "http://verif.test/graphql"
     headers: List[List[str]] = []
     for name in rng.sample(HEADER_NAMES, rng.choice([0, 1, 1, 2, 3])):
-        v = rng.choice(HEADER_VALUES) if rng.random() < 0.7 else rng.choice(HEADER_VALUES[:8])
+        q = rng.random()
+        v = rng.choice(HEADER_VALUES) if q < 0.55 else (rng.choice(HEADER_VALUES[:9]) if q < 0.8 else rng.choice(HEADER_VALUES[-3:] + ["$VERIF_C19_DOLLAR"]))
         headers.append([name, v])
     env = {k: v for k, v in ENV_VALUES.items() if rng.random() < 0.85}
     return {"path_kind": path_kind, "url": url, "headers": headers, "verify": rng.random() < 0.5, "env": env,
-            "verify_given": rng.random() < 0.8}
+            "verify_given": rng.random() < 0.8, "strategy": rng.choice(["client", "client", "client", "graphqlschema"]),
+            "repeat": rng.random() < 0.15}
+
+
+@contextlib.contextmanager
+def case_env(env: Dict[str, str]) -> Iterator[None]:
+    """exactly the variables of the case (of the ones this check uses) are set while the real code runs"""
+    saved = {k: os.environ.get(k) for k in list(ENV_VALUES) + ENV_ABSENT}
+    for k in saved:
+        os.environ.pop(k, None)
+    os.environ.update(env)
+    try:
+        yield
+    finally:
+        for k, v in saved.items():
+            if v is None:
+                os.environ.pop(k, None)
+            else:
+                os.environ[k] = v
+
+
+def captured_request(rec: Dict[str, Any], header_names: List[str]) -> Dict[str, Any]:
+    req = rec["requests"][0]
+    body = json.loads(req.content)
+    return {"o": "remote", "url": str(req.url), "headers": [[k, req.headers.get(k)] for k in header_names],
+            "verify": rec["verify"][-1] if rec["verify"] else None, "query": body.get("query"),
+            "body_keys": sorted(body), "method": req.method, "n_requests": len(rec["requests"])}
 
 
 def observe_source(case: Dict[str, Any], work: Path) -> Dict[str, Any]:
-    """run the REAL main.client up to the first request / first schema file read"""
-    import httpx
+    """run the REAL main.client / main.graphql_schema up to the first request / first schema file read; with `repeat` the
+    same configuration dict is run a second time in the same process (`second` = what that run did)"""
     from ariadne_codegen import main as ac_main
     from ariadne_codegen.exceptions import InvalidConfiguration, InvalidGraphqlSyntax
 
@@ -949,35 +1173,33 @@ def observe_source(case: Dict[str, Any], work: Path) -> Dict[str, Any]:
     bad.write_text("type {")
     q = work / "q.graphql"
     q.write_text("query Q { a }")
+    strategy = case.get("strategy", "client")
     schema_path = {"none": "", "bad-file": str(bad), "missing": str(work / "nope.graphql")}[case["path_kind"]]
-    cfg: Dict[str, Any] = {"queries_path": str(q), "target_package_path": str(work), "target_package_name": "pkg",
-                           "remote_schema_headers": {k: v for k, v in case["headers"]}}
+    cfg: Dict[str, Any] = {"remote_schema_headers": {k: v for k, v in case["headers"]}}
+    if strategy == "client":
+        cfg.update({"queries_path": str(q), "target_package_path": str(work), "target_package_name": "pkg"})
+    else:
+        cfg["target_file_path"] = str(work / "schema_out.py")
     if schema_path:
         cfg["schema_path"] = schema_path
     if case["url"]:
         cfg["remote_schema_url"] = case["url"]
     if case["verify_given"]:
         cfg["remote_schema_verify_ssl"] = case["verify"]
-    saved = {k: os.environ.get(k) for k in list(ENV_VALUES) + ["VERIF_C19_UNSET"]}
-    for k in saved:
-        os.environ.pop(k, None)
-    os.environ.update(case["env"])
+    config_dict = {"tool": {"ariadne-codegen": cfg}}
+    entry = ac_main.client if strategy == "client" else ac_main.graphql_schema
 
     def handler(request: Any) -> Any:
         raise _Stop()
 
-    out: Dict[str, Any]
-    try:
+    def once() -> Dict[str, Any]:
+        out: Dict[str, Any]
         with patched_httpx(handler) as rec, contextlib.redirect_stdout(io.StringIO()):
             try:
-                ac_main.client({"tool": {"ariadne-codegen": cfg}})
+                entry(config_dict)
                 out = {"o": "completed"}
             except _Stop:
-                req = rec["requests"][0]
-                body = json.loads(req.content)
-                out = {"o": "remote", "url": str(req.url), "headers": [[k, req.headers.get(k)] for k, _ in case["headers"]],
-                       "verify": rec["verify"][-1] if rec["verify"] else None, "query": body.get("query"),
-                       "body_keys": sorted(body), "method": req.method, "n_requests": len(rec["requests"])}
+                out = captured_request(rec, [k for k, _ in case["headers"]])
             except InvalidGraphqlSyntax as e:
                 m = re.match(r"Invalid graphql syntax in file (.*)$", str(e), re.S)
                 out = {"o": "path", "p": m.group(1) if m else "?"}
@@ -995,32 +1217,105 @@ def observe_source(case: Dict[str, Any], work: Path) -> Dict[str, Any]:
                 out["n_requests"] = len(rec["requests"])
             except Exception as e:  # noqa: BLE001
                 out = {"o": "internal", "exc": type(e).__name__, "msg": str(e)[:120]}
-    finally:
-        for k, v in saved.items():
-            if v is None:
-                os.environ.pop(k, None)
-            else:
-                os.environ[k] = v
+        return out
+
+    with case_env(case["env"]):
+        out = once()
+        if case.get("repeat"):
+            out["second"] = once()
     out["_schema_path"] = schema_path
     return out
 
 
-def check_sources(ctx: Ctx, st: Optional[LeanStatus], res: Result, n: int) -> None:
+def expected_headers(c: Dict[str, Any]) -> Optional[List[Tuple[str, str]]]:
+    """The property's last sentence read directly off the configuration: what each configured header must be sent as.
+    None = the configuration is outside the documented forms (`$$NAME`, a bare `$`) or names a variable that is unset or
+    empty - then the property does not say what is sent and nothing is judged."""
+    out: List[Tuple[str, str]] = []
+    for k, v in c["headers"]:
+        if v.startswith("$$") or v == "$":
+            return None
+        if v.startswith("$"):
+            x = c["env"].get(v[1:])
+            if not x:
+                return None
+            out.append((k, x))
+        else:
+            out.append((k, v))
+    return out
+
+
+def judge_source(c: Dict[str, Any], o: Dict[str, Any], res: Result, which: str = "") -> None:
+    """oracle: the property's last sentence, stated without the model"""
+    inp = {"kind": "source", **c}
+    if o["o"] == "remote":
+        for (k, v), (_, sent) in zip(c["headers"], o["headers"]):
+            if v.startswith("$$") or v == "$":
+                continue  # not a documented form
+            want = c["env"].get(v[1:]) if v.startswith("$") else v
+            if sent != want:
+                res.failures.append(Failure("header-not-sent-as-configured", None, inp, f"{which}{k}: configured {v!r} -> expected {want!r}, sent {sent!r}"))
+        want_verify = c["verify"] if c.get("verify_given", True) else True
+        if o["verify"] is not want_verify:
+            res.failures.append(Failure("verify-flag-not-sent", None, inp, f"{which}configured {want_verify}, transport got {o['verify']!r}"))
+        if c["path_kind"] != "none":
+            res.failures.append(Failure("remote-used-despite-schema-path", None, inp, which))
+        if o["url"] != c["url"]:
+            res.failures.append(Failure("request-to-another-url", None, inp, f"{which}configured {c['url']!r}, request went to {o['url']!r}"))
+    elif o["o"] in ("completed", "internal"):
+        res.failures.append(Failure("source-selection-" + o["o"], None, inp, which + json.dumps(o)[:200]))
+    elif c["path_kind"] == "none" and c["url"]:
+        exp = expected_headers(c)
+        if exp is not None:
+            # only the remote source is configured and every header is a plain value or names a set, non-empty variable:
+            # the headers "with $ENV substitution ... are what is sent" - so a request has to go out
+            res.failures.append(Failure("configured-headers-not-sent", None, inp,
+                                        f"{which}no request was sent ({json.dumps({k: v for k, v in o.items() if not k.startswith('_')})[:160]}); "
+                                        f"the configuration resolves to {exp!r}"))
+
+
+def same_remote(m: Dict[str, Any], o: Dict[str, Any]) -> bool:
     from graphql import get_introspection_query
 
-    rng = ctx.sub_rng("sources")
-    cases = [gen_source_case(rng) for _ in range(n)]
-    # a few fixed cells: documented example, both sources configured, nothing configured
-    cases[:0] = [
-        {"path_kind": "none", "url": "http://verif.test/graphql", "headers": [["Authorization", "$VERIF_C19_TOKEN"]], "verify": False,
-         "env": dict(ENV_VALUES), "verify_given": True},
-        {"path_kind": "none", "url": "http://verif.test/graphql", "headers": [["Authorization", "Bearer: token"]], "verify": True,
-         "env": {}, "verify_given": False},
-        {"path_kind": "bad-file", "url": "http://verif.test/graphql", "headers": [], "verify": True, "env": {}, "verify_given": True},
-        {"path_kind": "none", "url": "", "headers": [], "verify": True, "env": {}, "verify_given": True},
-        {"path_kind": "none", "url": "http://verif.test/graphql", "headers": [["X-Api-Key", "$VERIF_C19_UNSET"]], "verify": True, "env": {},
-         "verify_given": True},
+    flags = {k: ast.literal_eval(v) for k, v in m["flags"]}
+    return (m["url"] == o["url"] and m["headers"] == o["headers"] and m["verify"] == o["verify"]
+            and o["query"] == get_introspection_query(**flags) and o["body_keys"] == ["query"]
+            and o["method"] == "POST" and o["n_requests"] == 1)
+
+
+def same_source(m: Dict[str, Any], o: Dict[str, Any]) -> bool:
+    same = m["o"] == o["o"]
+    if same and o["o"] == "remote":
+        same = same_remote(m, o)
+    elif same and o["o"] == "path":
+        same = m["p"] == o["p"]
+    elif same and o["o"] == "err":
+        same = m["kind"] == o["kind"] and m.get("name") == o.get("name") and o.get("n_requests", 0) == 0
+    return same
+
+
+def fixed_source_cases() -> List[Dict[str, Any]]:
+    """documented example, both sources configured, nothing configured, an unset variable, and the cells where the
+    resolved value itself starts with `$` (one resolution and two differ exactly there), on both strategies"""
+    base = {"path_kind": "none", "url": "http://verif.test/graphql", "verify": True, "env": dict(ENV_VALUES), "verify_given": True,
+            "strategy": "client", "repeat": False}
+    out = [
+        {**base, "headers": [["Authorization", "$VERIF_C19_TOKEN"]], "verify": False},
+        {**base, "headers": [["Authorization", "Bearer: token"]], "env": {}, "verify_given": False},
+        {**base, "path_kind": "bad-file", "headers": [], "env": {}},
+        {**base, "url": "", "headers": [], "env": {}},
+        {**base, "headers": [["X-Api-Key", "$VERIF_C19_UNSET"]], "env": {}},
     ]
+    for strategy in STRATEGIES:
+        for v in ("$VERIF_C19_CRYPT", "$VERIF_C19_CHAIN", "$VERIF_C19_DOLLAR", "$VERIF_C19_SELF"):
+            out.append({**base, "headers": [["Authorization", v]], "strategy": strategy, "repeat": strategy == "client"})
+    out.append({**base, "headers": [["X-Trace", "plain"], ["Authorization", "$VERIF_C19_CRYPT"], ["X-Api-Key", "$VERIF_C19_B"]], "strategy": "graphqlschema"})
+    return out
+
+
+def check_sources(ctx: Ctx, st: Optional[LeanStatus], res: Result, n: int) -> None:
+    rng = ctx.sub_rng("sources")
+    cases = fixed_source_cases() + [gen_source_case(rng) for _ in range(n)]
     work = Path(tempfile.mkdtemp(prefix=engine.SCRATCH_PREFIX, dir=engine.scratch_root()))
     obs: List[Dict[str, Any]] = []
     lines: List[Dict[str, Any]] = []
@@ -1042,39 +1337,94 @@ def check_sources(ctx: Ctx, st: Optional[LeanStatus], res: Result, n: int) -> No
     for i, (c, o) in enumerate(zip(cases, obs)):
         if o is None:
             continue
+        second = o.pop("second", None)
         res.seen(["source", c], nontrivial=bool(c["headers"]) or o["o"] != "remote")
         res.count("source:" + o["o"] + (":" + o.get("kind", "") if o["o"] == "err" else ""))
+        res.count("source:strategy:" + c["strategy"])
+        if resolved_value_starts_with_dollar(c):
+            res.count("source:resolved-value-starts-with-$")
         if model is not None:
             m = model[i]
-            same = m["o"] == o["o"]
-            if same and o["o"] == "remote":
-                flags = {k: ast.literal_eval(v) for k, v in m["flags"]}
-                same = (m["url"] == o["url"] and m["headers"] == o["headers"] and m["verify"] == o["verify"]
-                        and o["query"] == get_introspection_query(**flags) and o["body_keys"] == ["query"]
-                        and o["method"] == "POST" and o["n_requests"] == 1)
-            elif same and o["o"] == "path":
-                same = m["p"] == o["p"]
-            elif same and o["o"] == "err":
-                same = m["kind"] == o["kind"] and m.get("name") == o.get("name") and o.get("n_requests", 0) == 0
-            if not same:
+            if not same_source(m, o):
                 res.mismatches.append(Mismatch("source", c, {k: v for k, v in o.items() if k != "query"}, m))
-        # oracle: the property's last sentence, stated directly
-        if o["o"] == "remote":
-            for (k, v), (_, sent) in zip(c["headers"], o["headers"]):
-                if v.startswith("$$") or v == "$":
-                    continue  # not a documented form
-                want = c["env"].get(v[1:]) if v.startswith("$") else v
-                if sent != want:
-                    res.failures.append(Failure("header-not-sent-as-configured", None, {"kind": "source", **c}, f"{k}: configured {v!r} -> expected {want!r}, sent {sent!r}"))
-            want_verify = c["verify"] if c["verify_given"] else True
-            if o["verify"] is not want_verify:
-                res.failures.append(Failure("verify-flag-not-sent", None, {"kind": "source", **c}, f"configured {want_verify}, transport got {o['verify']!r}"))
-            if c["path_kind"] != "none":
-                res.failures.append(Failure("remote-used-despite-schema-path", None, {"kind": "source", **c}, ""))
-        elif o["o"] in ("completed", "internal"):
-            res.failures.append(Failure("source-selection-" + o["o"], None, {"kind": "source", **c}, json.dumps(o)[:200]))
+            if second is not None and not same_source(m, second):
+                res.mismatches.append(Mismatch("source-second-run", c, {k: v for k, v in second.items() if k != "query"}, m))
+            if m["o"] == "remote" and m.get("resolvedDollar") is not resolved_value_starts_with_dollar(c) and expected_headers(c) is not None:
+                res.mismatches.append(Mismatch("source-trigger", c, {"resolvedDollar": resolved_value_starts_with_dollar(c)}, {"resolvedDollar": m.get("resolvedDollar")}))
+        judge_source(c, o, res)
+        if second is not None:
+            res.count("source:run-twice")
+            judge_source(c, second, res, which="second run in the same process: ")
         if i < 2:
             res.sample({"observation": "source", "input": c, "impl": {k: v for k, v in o.items() if k not in ("query", "_schema_path")}, "model": model[i] if model else None})
+
+
+# direct calls of the two functions below `main`: no settings, no environment at this level
+
+
+def gen_urlcall_case(rng: random.Random) -> Dict[str, Any]:
+    headers: Optional[List[List[str]]] = None
+    if rng.random() < 0.85:
+        headers = [[name, rng.choice(HEADER_VALUES)] for name in rng.sample(HEADER_NAMES, rng.choice([0, 1, 2, 3]))]
+    return {"fn": rng.choice(["get_graphql_schema_from_url", "introspect_remote_schema"]),
+            "url": rng.choice(["http://verif.test/graphql", "https://api.verif.test/v1/graphql?x=1", "http://verif.test:8080/"]),
+            "headers": headers, "headers_given": headers is not None or rng.random() < 0.5,
+            "verify": rng.random() < 0.5, "verify_given": rng.random() < 0.7,
+            "env": {k: v for k, v in ENV_VALUES.items() if rng.random() < 0.7}}
+
+
+def observe_urlcall(case: Dict[str, Any]) -> Dict[str, Any]:
+    S = _schema_mod()
+    fn = getattr(S, case["fn"])
+    kwargs: Dict[str, Any] = {"url": case["url"]}
+    if case["headers_given"]:
+        kwargs["headers"] = {k: v for k, v in case["headers"]} if case["headers"] is not None else None
+    if case["verify_given"]:
+        kwargs["verify_ssl"] = case["verify"]
+
+    def handler(request: Any) -> Any:
+        raise _Stop()
+
+    with case_env(case["env"]), patched_httpx(handler) as rec:
+        try:
+            fn(**kwargs)
+            return {"o": "completed"}
+        except _Stop:
+            return captured_request(rec, [k for k, _ in (case["headers"] or [])])
+        except (AttributeError, ImportError, TypeError):
+            raise
+        except Exception as e:  # noqa: BLE001
+            return {"o": "err", "exc": qualname(type(e)), "msg": str(e)[:160], "n_requests": len(rec["requests"])}
+
+
+def check_urlcalls(ctx: Ctx, st: Optional[LeanStatus], res: Result, n: int) -> None:
+    """`get_graphql_schema_from_url` / `introspect_remote_schema` called directly with arbitrary header dicts (values that
+    start with `$` included, variables set and unset): the request carries the arguments unchanged (Lean `urlCall`)"""
+    rng = ctx.sub_rng("urlcalls")
+    cases = [gen_urlcall_case(rng) for _ in range(n)]
+    for fn in ("get_graphql_schema_from_url", "introspect_remote_schema"):
+        for v in ("$VERIF_C19_TOKEN", "$VERIF_C19_UNSET", "$VERIF_C19_CRYPT", "$2y$10$N9qo8uLOickgx2ZMRZoMye", "$x"):
+            cases.append({"fn": fn, "url": "http://verif.test/graphql", "headers": [["Authorization", v]], "headers_given": True,
+                          "verify": False, "verify_given": True, "env": dict(ENV_VALUES)})
+    obs: List[Optional[Dict[str, Any]]] = []
+    lines = []
+    for c in cases:
+        try:
+            obs.append(observe_urlcall(c))
+        except (AttributeError, ImportError, TypeError) as e:
+            res.mismatches.append(Mismatch("urlcall", c, f"observer: {e!r}", None))
+            obs.append(None)
+        lines.append({"op": "urlcall", "url": c["url"], "headers": c["headers"] or [], "verify": c["verify"] if c["verify_given"] else True})
+    model = common.run_driver(PROP, lines) if (st is not None and st.driver_ok) else None
+    for i, (c, o) in enumerate(zip(cases, obs)):
+        if o is None:
+            continue
+        res.seen(["urlcall", c], nontrivial=bool(c["headers"]))
+        res.count("urlcall:" + c["fn"] + ":" + o["o"])
+        if model is not None and not (o["o"] == "remote" and same_remote(model[i], o)):
+            res.mismatches.append(Mismatch("urlcall", c, {k: v for k, v in o.items() if k != "query"}, model[i]))
+        if i < 1:
+            res.sample({"observation": "urlcall", "input": c, "impl": {k: v for k, v in o.items() if k != "query"}, "model": model[i] if model else None})
 
 
 # --------------------------------------------------------------------------------------------
@@ -2132,7 +2482,7 @@ _REPLAY_VERBOSE = [False]
 
 def _show(impl: Dict[str, Any]) -> None:
     if _REPLAY_VERBOSE[0]:
-        print("observed:", json.dumps(impl)[:300])
+        print("observed:", json.dumps(impl, default=repr)[:600])
 
 
 def replay_input(ctx: Ctx, inp: Dict[str, Any]) -> Result:
@@ -2221,17 +2571,12 @@ def replay_input(ctx: Ctx, inp: Dict[str, Any]) -> Result:
             o = observe_source(inp, work)
         finally:
             shutil.rmtree(work, ignore_errors=True)
-        if o["o"] == "remote":
-            for (k, v), (_, sent) in zip(inp["headers"], o["headers"]):
-                if v.startswith("$$") or v == "$":
-                    continue
-                want = inp["env"].get(v[1:]) if v.startswith("$") else v
-                if sent != want:
-                    res.failures.append(Failure("header-not-sent-as-configured", None, inp, f"{k}: expected {want!r}, sent {sent!r}"))
-            want_verify = inp["verify"] if inp.get("verify_given", True) else True
-            if o["verify"] is not want_verify:
-                res.failures.append(Failure("verify-flag-not-sent", None, inp, f"configured {want_verify}, transport got {o['verify']!r}"))
-        print("observed:", json.dumps({k: v for k, v in o.items() if k != "query"}, default=repr)[:600])
+        c = {k: v for k, v in inp.items() if k != "kind"}
+        second = o.pop("second", None)
+        judge_source(c, o, res)
+        if second is not None:
+            judge_source(c, second, res, which="second run in the same process: ")
+        _show({k: v for k, v in o.items() if k != "query"})
     elif kind == "suffix":
         root = Path(tempfile.mkdtemp(prefix=engine.SCRATCH_PREFIX, dir=engine.scratch_root()))
         try:
@@ -2262,6 +2607,7 @@ FINGERPRINT_ITEMS: List[Tuple[str, Optional[str]]] = [
     ("ariadne_codegen/settings.py", "resolve_headers"),
     ("ariadne_codegen/settings.py", "get_header_value"),
     ("ariadne_codegen/main.py", "client"),
+    ("ariadne_codegen/main.py", "graphql_schema"),
     ("ariadne_codegen/client_generators/input_fields.py", "parse_input_field_type"),
     ("ariadne_codegen/client_generators/input_fields.py", "parse_input_field_default_value"),
     ("ariadne_codegen/client_generators/input_fields.py", "parse_input_const_value_node"),
@@ -2300,9 +2646,13 @@ def run(ctx: Ctx, st: Optional[LeanStatus]) -> Result:
     res = Result()
     res.rule = (
         "correspondence: suffix table (fixed names + all names over {a . g q l} up to length 5/6), random directory trees on disk, "
+        "graphql-core's Lexer vs Spec/GqlLexer token by token (templates, rendered SDL, fragment and alphabet compositions, mutated SDL; errors by class) "
+        "and the token stream of sep.join(texts) for the measured separator and eight others, "
         "the complete introspection table (%d statuses x %d body classes + every exception class of the installed httpx, user subclasses and foreign exceptions (%d classes) "
         "with random messages, weighted 60%% into the TransportError family + unparseable URLs) plus random bodies, the real transport on unreachable URLs and a misbehaving loopback endpoint, "
-        "random source configurations through the real main.client, random input-centric schemas through both real builders; "
+        "random source configurations through the real main.client and main.graphql_schema (some run twice in one process; environment values that themselves "
+        "start with `$`), direct calls of get_graphql_schema_from_url / introspect_remote_schema with arbitrary header dicts, "
+        "random input-centric schemas through both real builders; "
         "oracle: random schemas + operations generated from three (thorough: four) sources and compared package by package. "
         "distinct = distinct inputs; non-trivial = a name with a dot, a tree loading > 1 definition, a table cell or a 2xx JSON object body, "
         "a configuration with headers or a refusal, every schema" % (len(STATUSES), len(body_table()), len(exception_table()))
@@ -2314,14 +2664,17 @@ def run(ctx: Ctx, st: Optional[LeanStatus]) -> Result:
     check_real_transport(res)
     check_suffixes(ctx, st, res)
     check_trees(ctx, st, res, ctx.budget(400, 3000))
+    check_lexer(ctx, st, res, ctx.budget(2500, 20000))
     check_remote(ctx, st, res)
     check_sources(ctx, st, res, ctx.budget(200, 1500))
+    check_urlcalls(ctx, st, res, ctx.budget(150, 1000))
     ctx.log(f"files/remote/settings correspondence done: {res.evaluations} evaluations, {len(res.mismatches)} mismatches")
     check_inputs(ctx, st, res, ctx.budget(300, 3000))
     check_split_schemas(ctx, res, ctx.budget(60, 400))
     ctx.log(f"inputs correspondence + split oracle done: {res.evaluations} evaluations, {len(res.mismatches)} mismatches")
     run_oracle(ctx, res, ctx.budget(30, 240))
     res.exhaustive = False
+    res.extra["parser_not_definitionwise_witness"] = parser_witness()
     res.extra["introspection_table_cells"] = len(STATUSES) * len(body_table())
     res.oracle_only += [
         "graphql-core's parse / build_ast_schema / build_client_schema / validate and its introspection executor are black boxes: "
@@ -2335,7 +2688,10 @@ def run(ctx: Ctx, st: Optional[LeanStatus]) -> Result:
         "property: compared with the model (they escape unchanged), never judged",
     ]
     res.assumptions += [
-        "for individually parseable type-system documents, parse('\\n'.join(texts)).definitions is the concatenation of the parts' definitions (checked on every tree of this run)",
+        "graphql-core's parser sees only the token stream (comments dropped) and parses a stream made of complete type-system documents definition by definition "
+        "(Lean: DefinitionWise, a hypothesis of joined_text_definitions; checked on every tree of this run; NOT true of the full grammar: `type A` + `{ x: Int }` "
+        "is one definition - recorded under extra.parser_not_definitionwise_witness). The lexical half of the former assumption is a theorem now (joined_text_tokens) "
+        "over Spec/GqlLexer, which is tied to the real Lexer by the `lex` correspondence",
         "Path.glob('**/*') yields every descendant exactly once, in an unspecified order (CPython 3.12 pathlib)",
         "a spec-conformant endpoint answers the introspection query as graphql-core's executor does (deprecated input values only with includeDeprecated: true)",
     ]
